@@ -23,6 +23,7 @@ mod c21;
 mod c19;
 mod kindwire;
 mod c32;
+mod c33;
 mod gens;
 mod lang;
 mod vrlrun;
@@ -67,6 +68,7 @@ const EXECS: &[Exec] = &[
     c21::exec,
     c19::exec,
     c32::exec,
+    c33::exec,
 ];
 
 /// Run one case (`op` + inputs) on the implementation: the first module that recognises the op answers.
@@ -111,6 +113,7 @@ fn generate(prop: &str, sink: &mut sink::Sink, rng: &mut rng::Rng, n: u64) -> bo
         "C21" => c21::generate(sink, rng, n),
         "C19" => c19::generate(sink, rng, n),
         "C32" => c32::generate(sink, rng, n),
+        "C33" => c33::generate(sink, rng, n),
         _ => return false,
     }
     true
@@ -180,6 +183,7 @@ fn main() {
                 }
             }
         }
+        "c33" => c33::cli(&args[2..]),
         _ => {
             eprintln!("unknown command");
             std::process::exit(2);
